@@ -139,7 +139,9 @@ def strategy():
         if bom:
             feats.add("BOM")
         alt = draw(st.sampled_from([False, False, True]))
-        return {"data": data, "feats": sorted(feats) + (["build:alternative-compile-time-defaults"] if alt else []), "altbuild": alt}
+        loc = draw(st.sampled_from([False, False, True]))
+        return {"data": data, "feats": sorted(feats) + (["build:alternative-compile-time-defaults"] if alt else []) + (["locale:non-ascii-case-mapping"] if loc else []),
+                "altbuild": alt, "locale": loc}
     return case()
 
 
@@ -161,6 +163,7 @@ def parse_conf_output(out):
     return vals
 
 
+LOCALE = None
 ALT = "ts-asan-altdefaults"
 ALT_DEFAULTS = {"message_format": b"ALT %{cmdline} u=%{uid} [%{tty}] %{datetime:%H:%M}", "output": b"file:/nonexistent/alt-%{datetime:%Y-%m}-%{snoopy_literal:a:b}.log",
                 "syslog_facility": b"LOCAL2", "syslog_level": b"DEBUG", "filter_chain": b"exclude_uid:77;noop", "error_logging": b"yes"}
@@ -180,7 +183,8 @@ def evaluate(env, c, roundtrip=None):
     do_rt = roundtrip if roundtrip is not None else (sum(data) % 4 == 0)
     ctl_env = ["--", "SNOOPY_TEST_LIBSNOOPY_SO_PATH=" + d.build["lib"], "ASAN_OPTIONS=detect_leaks=0:abort_on_error=1",
                "PATH=/usr/bin:/bin"]
-    ops = [drv.op("C", data), drv.op("Y")]
+    # the host program may run under a locale whose case mapping is not ASCII's (toupper('i') != 'I'): keywords are ASCII all the same
+    ops = ([drv.op("q", LOCALE[1])] if c.get("locale") and LOCALE else []) + [drv.op("C", data), drv.op("Y")]
     if do_rt:
         ops.append(drv.op("B", d.build["ctl"], "snoopyctl", "conf", *ctl_env))
     res = d.scenario(ops)
@@ -233,16 +237,19 @@ def classify(c):
         special = special | {"duplicate"}
     nontriv = bool(opts) and bool(special)
     key = (tuple(sorted(special)), tuple(opts)) if nontriv else None
-    return key, sorted(special) + (["has-option"] if opts else ["no-option"]) + (["build:alternative-compile-time-defaults"] if c.get("altbuild") else [])
+    return key, sorted(special) + (["has-option"] if opts else ["no-option"]) + (["build:alternative-compile-time-defaults"] if c.get("altbuild") else []) + (["locale:non-ascii-case-mapping"] if c.get("locale") else [])
 
 
 def sample(c):
-    return {"data": c["data"], "feats": c["feats"], "altbuild": c.get("altbuild", False)}
+    return {"data": c["data"], "feats": c["feats"], "altbuild": c.get("altbuild", False), "locale": c.get("locale", False)}
 
 
 FIXED = [
     {"data": b"[snoopy]\nlog_message_max_length = 2048m\ndatasource_message_max_length = 2147483648\n", "feats": ["opt:log_message_max_length"]},
     {"data": b"[snoopy]\nsyslog_facility = A\nsyslog_level = XYZ_DEBUG\n", "feats": ["opt:syslog_facility"]},
+    {"data": b"[snoopy]\nsyslog_facility = mail\nsyslog_level = LOG_warning\nerror_logging = TRUE\n", "feats": ["opt:syslog_facility", "locale:non-ascii-case-mapping"], "locale": True},
+    {"data": b"[snoopy]\nsyslog_facility = Daemon\nsyslog_level = info\noutput = stdout\nfilter_chain =\n", "feats": ["opt:syslog_level", "build:alternative-compile-time-defaults"],
+     "altbuild": True, "locale": True},
     {"data": b"[snoopy]\noutput = :\n", "feats": ["opt:output"]},
     {"data": b"[snoopy]\nmessage_format = \"  padded  \"\n", "feats": ["opt:message_format", "quotes"]},
     {"data": b"\xef\xbb\xbf[snoopy]\nsyslog_facility: LOG_local3 ; c\n   LOCAL4\n", "feats": ["opt:syslog_facility", "BOM", "continuation", "colon-sep"]},
@@ -263,7 +270,13 @@ def main():
                        "garbage may yield the default or the value of its leading digits",
                        "round trip through the real `snoopyctl conf` is run for about a quarter of the cases"]
     nw, per = (4, 1000) if ctx.quick else (16, 7500)
-    pbt.run(ctx, {"ts-asan": b, ALT: balt}, strategy, evaluate, classify, nw, per, sample=sample, fixed_cases=FIXED)
+    global LOCALE
+    import trlocale
+    LOCALE = trlocale.build(os.path.join(ctx.run.dir, "locale"))
+    if LOCALE is None:
+        ctx.inconclusive.append("localedef not available: the non-ASCII-case-mapping locale could not be built, those cases run in the C locale")
+    pbt.run(ctx, {"ts-asan": b, ALT: balt}, strategy, evaluate, classify, nw, per, sample=sample, fixed_cases=FIXED,
+            driver_kwargs={"extra_env": {"LOCPATH": LOCALE[0]}} if LOCALE else None)
     ctx.finish()
 
 
